@@ -9,11 +9,16 @@ from harness import gen
 from harness.framework import Suite
 
 PID = "C18"
-LEAN_MODS = ["SwcVerif.Props.C18", "SwcVerif.Props.C05"]
+LEAN_MODS = ["SwcVerif.Props.C18", "SwcVerif.Props.C05", "SwcVerif.Props.C18Gen"]
+TRANSLATE_ALGO = ["AlgoDsu"]          # Gen/AlgoDsu.lean is regenerated from swcgeom/utils/dsu.py on every run
+DRIVER_FILES = ["SwcVerif/Model/AlgoRun.lean"]
 THEOREMS = [
     "C18.dsu_refines_partition", "C18.runOps_cons", "C18.invalid_rejected", "C18.hasCyclic_spec", "C18.isBifurcate_correct",
     "C18.jumpPass_stop", "C18.getDsu_fixpoint", "C18.getDsu_sorted_forest", "Dsu.jumpLoop_forest", "C18.getDsu_forest", "C18.forest_single_label_iff", "Dsu.jumpLoop_conn", "C18.getDsu_labels_are_components", "C18.repair_somas", "C18.repair_nearest_partial", "Dsu.linkLoop_inv", "C18.repair_nearest_tree", "Dsu.cycle_strict", "Dsu.jumpLoop_terminates", "C18.getDsu_total", "C18.isSingleRoot_total",
     "C05.isSorted_iff",
+    # refinement: the definitions generated from dsu.py on this run compute what the model computes (every script)
+    "RefineDsu.find_refines", "RefineDsu.union_refines", "RefineDsu.same_refines", "RefineDsu.init_refines",
+    "RefineDsu.script_refines", "RefineDsu.script_refines_init", "C18.generated_dsu_refines_partition",
 ]
 TRUSTED = ["hand-written models Model/Dsu.lean of DisjointSetUnion, has_cyclic, is_bifurcate, get_dsu / is_single_root, mark_roots_as_somas_, "
            "link_roots_to_nearest_ (tied by the c18.* correspondence suites: union/find scripts, ALL parent tables with n ≤ 5, random larger ones, multi-root files)"]
@@ -91,7 +96,9 @@ class DsuScripts(Suite):
         if "exc" in res:
             return []
         ops = ";".join(f"{k}:{a}:{b}" for k, a, b in case["ops"])
-        return [(f"dsu n={case['n']} ops={ops}", "".join("T" if x else "F" for x in res["ans"]))]
+        want = "".join("T" if x else "F" for x in res["ans"])
+        # the hand-written model AND the definitions generated from dsu.py on this run (translator cross-check)
+        return [(f"dsu n={case['n']} ops={ops}", want), (f"gdsu n={case['n']} ops={ops}", want)]
 
     def oracle(self, case, res):
         if "exc" in res:
@@ -396,10 +403,12 @@ SUITES = [DsuScripts(), Checkers(), Repair()]
 TECHNIQUE = ("Lean 4 theorems: the union-find model (path compression + union by rank) answers same-set queries exactly as the equivalence closure of the "
              "unions performed so far, for every operation history (invariant: ranks strictly increase along parent pointers; find preserves every root); "
              "has_cyclic / is_bifurcate / is_sorted / pointer-jumping / root-repair models characterised + differential correspondence on union/find scripts, "
-             "ALL parent tables with n ≤ 5 and multi-root files + independent graph oracles")
+             "ALL parent tables with n ≤ 5 and multi-root files + independent graph oracles; "
+             "the methods of dsu.py are additionally TRANSLATED to Lean on every run (harness/translate_algo.py → Gen/AlgoDsu.lean) and proved to refine the model on every script "
+             "(RefineDsu.script_refines_init, C18.generated_dsu_refines_partition); the generated definitions are also run against the real class")
 LEVEL_TEXT = ("Kernel-checked for every history of unions and queries on n elements: is_same_set answers true exactly when the two elements are connected "
               "by the unions so far. Kernel-checked characterisations of has_cyclic (first row that joins two already connected nodes), is_bifurcate, "
               "is_sorted, of the pointer-jumping labelling (on EVERY forest, in any numbering, the loop stops within the modelled pass budget at the labelling 'root of my tree', so all labels are "
               "equal exactly when there is one root; on ANY table whose parents name rows, cycles included, the loop stops within the modelled pass budget — the sum of orbit sizes drops in every pass that changes anything — and two rows carry the same label exactly when they are weakly connected, so is_single_root answers 'one weak component'), and of the two root repairs (single root = first root, other rows untouched; the nearest-root repair of ANY forest, for any distances, returns an acyclic single-rooted table — each root is linked below a row of another component). "
               "The models are compared with the code on every parent table with at most 5 nodes and on random larger ones.")
-LEVEL_NOTE = ("Trusted: Lean kernel; hand-written models tied by exhaustive small-table and random correspondence; the total-correctness theorems of pointer jumping and the tree theorem of the nearest-root repair are stated for row-numbered ids (0..n-1), other numberings through the correspondence.")
+LEVEL_NOTE = ("Trusted: Lean kernel; the imperative translator + its semantics library Model/Py.lean for dsu.py (cross-checked by running the generated code against the real class); hand-written models tied by exhaustive small-table and random correspondence; the total-correctness theorems of pointer jumping and the tree theorem of the nearest-root repair are stated for row-numbered ids (0..n-1), other numberings through the correspondence.")
